@@ -183,7 +183,7 @@ XLATE = {
  'C09': "Translated code (Tie/C09): ALL of internal/bech32 (polymod, hrpExpand, verifyChecksum, createChecksum, convertBits, Encode, Decode) and plugin Encode/Parse{Identity,Recipient} are translated from /repo statement by statement on every run and PROVED, for every byte string incl. non-ASCII and invalid UTF-8, to return exactly what the model returns (decode_tie, encode_tie, parseIdentity_tie, ...): the theorems above are therefore about the functions as they stand in the source.",
  'C11': "Translated code (Tie/C11): age.slicesEqual, regenerated from /repo on every run, proved to be list equality.",
  'C18': "Translated code (Tie/C18): age.ParseIdentities and age.ParseRecipients are translated from /repo on every run (bufio.Scanner loop, line counter, skip test, error with the line number; the single-line parser kept abstract as in the model) and proved, for every file content and every single-line parser, to compute the file-level model — so keyfile_exact / keyfile_no_skip / keyfile_first_error are theorems about these two functions as they stand in the source.",
- 'C17': "Translated code (Tie/C17): plugin.validPluginName, ParseRecipient, ParseIdentity and EncodeIdentity are translated from /repo on every run and proved equal to the model for every byte string (invalid UTF-8 included).",
+ 'C17': "Translated code (Tie/C17): plugin.validPluginName — the test every construction of a plugin client goes through — is translated from /repo on every run and proved equal to the model for every byte string (invalid UTF-8 included); the parsers/encoders built on it are tied in Tie/C09.",
 }
 for _k, _v in XLATE.items():
     CLAIMS[_k]['text'] += " " + _v
